@@ -365,7 +365,7 @@ verif_harness! {
     unwind: 40,
     prop: |inp| { s32_64::rounds(inp) }
 }
-//@ harness name=speck32_64_rt prop=C01,C20 tier=quick bits=384 est=90 desc="D: Speck32_64 dec(enc(b)) == b and enc(dec(b)) == b on an ARBITRARY round-key state, all blocks"
+//@ harness name=speck32_64_rt prop=C01,C20 tier=quick bits=384 est=95 desc="D: Speck32_64 dec(enc(b)) == b and enc(dec(b)) == b on an ARBITRARY round-key state, all blocks"
 verif_harness! {
     name: speck32_64_rt,
     bytes: 48,
@@ -389,7 +389,7 @@ verif_harness! {
     unwind: 40,
     prop: |inp| { s48_72::rounds(inp) }
 }
-//@ harness name=speck48_72_rt prop=C01,C20 tier=quick bits=752 est=60 desc="D: Speck48_72 dec(enc(b)) == b and enc(dec(b)) == b on an ARBITRARY round-key state, all blocks"
+//@ harness name=speck48_72_rt prop=C01,C20 tier=quick bits=752 est=75 desc="D: Speck48_72 dec(enc(b)) == b and enc(dec(b)) == b on an ARBITRARY round-key state, all blocks"
 verif_harness! {
     name: speck48_72_rt,
     bytes: 94,
@@ -413,7 +413,7 @@ verif_harness! {
     unwind: 40,
     prop: |inp| { s48_96::rounds(inp) }
 }
-//@ harness name=speck48_96_rt prop=C01,C20 tier=quick bits=784 est=85 desc="D: Speck48_96 dec(enc(b)) == b and enc(dec(b)) == b on an ARBITRARY round-key state, all blocks"
+//@ harness name=speck48_96_rt prop=C01,C20 tier=quick bits=784 est=95 desc="D: Speck48_96 dec(enc(b)) == b and enc(dec(b)) == b on an ARBITRARY round-key state, all blocks"
 verif_harness! {
     name: speck48_96_rt,
     bytes: 98,
@@ -437,7 +437,7 @@ verif_harness! {
     unwind: 40,
     prop: |inp| { s64_96::rounds(inp) }
 }
-//@ harness name=speck64_96_rt prop=C01,C20 tier=quick bits=896 est=120 desc="D: Speck64_96 dec(enc(b)) == b and enc(dec(b)) == b on an ARBITRARY round-key state, all blocks"
+//@ harness name=speck64_96_rt prop=C01,C20 tier=quick bits=896 est=130 desc="D: Speck64_96 dec(enc(b)) == b and enc(dec(b)) == b on an ARBITRARY round-key state, all blocks"
 verif_harness! {
     name: speck64_96_rt,
     bytes: 112,
@@ -461,7 +461,7 @@ verif_harness! {
     unwind: 40,
     prop: |inp| { s64_128::rounds(inp) }
 }
-//@ harness name=speck64_128_rt prop=C01,C20 tier=quick bits=928 est=160 desc="D: Speck64_128 dec(enc(b)) == b and enc(dec(b)) == b on an ARBITRARY round-key state, all blocks"
+//@ harness name=speck64_128_rt prop=C01,C20 tier=quick bits=928 est=200 desc="D: Speck64_128 dec(enc(b)) == b and enc(dec(b)) == b on an ARBITRARY round-key state, all blocks"
 verif_harness! {
     name: speck64_128_rt,
     bytes: 116,
@@ -487,7 +487,7 @@ verif_harness! {
     stubs: [(crate::Speck96_96::round_function, s96_96::stub_rf), (crate::Speck96_96::inverse_round_function, s96_96::stub_irf)],
     prop: |inp| { s96_96::rounds_w(inp) }
 }
-//@ harness name=speck96_96_w_rt prop=C01,C20 tier=quick bits=1888 stub=1 est=25 desc="W: Speck96_96 decrypt_block(encrypt_block(b)) == b and encrypt_block(decrypt_block(b)) == b on an ARBITRARY round-key state, all blocks; round_function / inverse_round_function uninterpreted mutual inverses (leaf lemma speck_leaf_inverse)"
+//@ harness name=speck96_96_w_rt prop=C01,C20 tier=quick bits=1888 stub=1 est=40 desc="W: Speck96_96 decrypt_block(encrypt_block(b)) == b and encrypt_block(decrypt_block(b)) == b on an ARBITRARY round-key state, all blocks; round_function / inverse_round_function uninterpreted mutual inverses (leaf lemma speck_leaf_inverse)"
 verif_harness! {
     name: speck96_96_w_rt,
     bytes: 236,
@@ -514,7 +514,7 @@ verif_harness! {
     stubs: [(crate::Speck96_144::round_function, s96_144::stub_rf), (crate::Speck96_144::inverse_round_function, s96_144::stub_irf)],
     prop: |inp| { s96_144::rounds_w(inp) }
 }
-//@ harness name=speck96_144_w_rt prop=C01,C20 tier=quick bits=1952 stub=1 est=30 desc="W: Speck96_144 decrypt_block(encrypt_block(b)) == b and encrypt_block(decrypt_block(b)) == b on an ARBITRARY round-key state, all blocks; round_function / inverse_round_function uninterpreted mutual inverses (leaf lemma speck_leaf_inverse)"
+//@ harness name=speck96_144_w_rt prop=C01,C20 tier=quick bits=1952 stub=1 est=40 desc="W: Speck96_144 decrypt_block(encrypt_block(b)) == b and encrypt_block(decrypt_block(b)) == b on an ARBITRARY round-key state, all blocks; round_function / inverse_round_function uninterpreted mutual inverses (leaf lemma speck_leaf_inverse)"
 verif_harness! {
     name: speck96_144_w_rt,
     bytes: 244,
@@ -541,7 +541,7 @@ verif_harness! {
     stubs: [(crate::Speck128_128::round_function, s128_128::stub_rf), (crate::Speck128_128::inverse_round_function, s128_128::stub_irf)],
     prop: |inp| { s128_128::rounds_w(inp) }
 }
-//@ harness name=speck128_128_w_rt prop=C01,C20 tier=quick bits=2176 stub=1 est=30 desc="W: Speck128_128 decrypt_block(encrypt_block(b)) == b and encrypt_block(decrypt_block(b)) == b on an ARBITRARY round-key state, all blocks; round_function / inverse_round_function uninterpreted mutual inverses (leaf lemma speck_leaf_inverse)"
+//@ harness name=speck128_128_w_rt prop=C01,C20 tier=quick bits=2176 stub=1 est=40 desc="W: Speck128_128 decrypt_block(encrypt_block(b)) == b and encrypt_block(decrypt_block(b)) == b on an ARBITRARY round-key state, all blocks; round_function / inverse_round_function uninterpreted mutual inverses (leaf lemma speck_leaf_inverse)"
 verif_harness! {
     name: speck128_128_w_rt,
     bytes: 272,
@@ -568,7 +568,7 @@ verif_harness! {
     stubs: [(crate::Speck128_192::round_function, s128_192::stub_rf), (crate::Speck128_192::inverse_round_function, s128_192::stub_irf)],
     prop: |inp| { s128_192::rounds_w(inp) }
 }
-//@ harness name=speck128_192_w_rt prop=C01,C20 tier=quick bits=2240 stub=1 est=30 desc="W: Speck128_192 decrypt_block(encrypt_block(b)) == b and encrypt_block(decrypt_block(b)) == b on an ARBITRARY round-key state, all blocks; round_function / inverse_round_function uninterpreted mutual inverses (leaf lemma speck_leaf_inverse)"
+//@ harness name=speck128_192_w_rt prop=C01,C20 tier=quick bits=2240 stub=1 est=45 desc="W: Speck128_192 decrypt_block(encrypt_block(b)) == b and encrypt_block(decrypt_block(b)) == b on an ARBITRARY round-key state, all blocks; round_function / inverse_round_function uninterpreted mutual inverses (leaf lemma speck_leaf_inverse)"
 verif_harness! {
     name: speck128_192_w_rt,
     bytes: 280,
@@ -595,7 +595,7 @@ verif_harness! {
     stubs: [(crate::Speck128_256::round_function, s128_256::stub_rf), (crate::Speck128_256::inverse_round_function, s128_256::stub_irf)],
     prop: |inp| { s128_256::rounds_w(inp) }
 }
-//@ harness name=speck128_256_w_rt prop=C01,C20 tier=quick bits=2304 stub=1 est=30 desc="W: Speck128_256 decrypt_block(encrypt_block(b)) == b and encrypt_block(decrypt_block(b)) == b on an ARBITRARY round-key state, all blocks; round_function / inverse_round_function uninterpreted mutual inverses (leaf lemma speck_leaf_inverse)"
+//@ harness name=speck128_256_w_rt prop=C01,C20 tier=quick bits=2304 stub=1 est=40 desc="W: Speck128_256 decrypt_block(encrypt_block(b)) == b and encrypt_block(decrypt_block(b)) == b on an ARBITRARY round-key state, all blocks; round_function / inverse_round_function uninterpreted mutual inverses (leaf lemma speck_leaf_inverse)"
 verif_harness! {
     name: speck128_256_w_rt,
     bytes: 288,
